@@ -231,10 +231,10 @@ Lemma ffi_kk_eq :
 Proof. vm_compute. reflexivity. Qed.
 Lemma ffi_ckk_eq : ffi_ckk = mk_centry true [] false DimNone COk None by_tag "CompleteKarmarkarKarp" 1 [(0, PSame)].
 Proof. vm_compute. reflexivity. Qed.
-(* Does the entry point answer BAD_TYPE for points announced with another Type tag than double?  Not at
-   present (finding candidate ffi-points-type-unchecked, docs/C17.md); the statements below are written for
-   both shapes of the glue, with the check right after the length check, and [checks_points] is computed
-   from the generated table. *)
+(* Does the entry point answer BAD_TYPE for points announced with another Type tag than double?  It does since
+   fix eb2545c (before it the tag of the points was never read: finding ffi-points-type-unchecked).  The lemmas
+   below are proved for both shapes [chk = true / false] of the glue; the theorems are stated at [true], the
+   shape of the generated table, and the old shape is refuted (old_shape_refuted). *)
 Definition checks_points (e : centry) : bool :=
   existsb (fun x => match fst x with PPointsDouble => true | _ => false end) (ce_pre e).
 Definition points_pre (chk : bool) : list (precheck * code) := if chk then [(PPointsDouble, CBadType)] else [].
@@ -244,12 +244,21 @@ Definition geo_entry (chk : bool) (alg : string) : centry :=
 Definition hilbert_entry (chk : bool) : centry :=
   mk_centry true ((PLenPointsWeights, CLenMismatch) :: points_pre chk ++ [(PWeightsDouble, CBadType)]) true (DimFixed 2) COk
             (Some CNotFound) (WFixed F64) "HilbertCurve" 2 [(0, PSame); (1, PSame)].
-Lemma ffi_rcb_eq : ffi_rcb = geo_entry (checks_points ffi_rcb) "Rcb".
+Lemma ffi_rcb_eq : ffi_rcb = geo_entry true "Rcb".
 Proof. vm_compute. reflexivity. Qed.
-Lemma ffi_rib_eq : ffi_rib = geo_entry (checks_points ffi_rib) "Rib".
+Lemma ffi_rib_eq : ffi_rib = geo_entry true "Rib".
 Proof. vm_compute. reflexivity. Qed.
-Lemma ffi_hilbert_eq : ffi_hilbert = hilbert_entry (checks_points ffi_hilbert).
+Lemma ffi_hilbert_eq : ffi_hilbert = hilbert_entry true.
 Proof. vm_compute. reflexivity. Qed.
+Lemma points_type_checked :
+  checks_points ffi_rcb = true /\ checks_points ffi_rib = true /\ checks_points ffi_hilbert = true.
+Proof. repeat split; vm_compute; reflexivity. Qed.
+(* the pre-fix shape (points' tag never read) is not the shape of the current source *)
+Lemma old_shape_refuted :
+  ffi_rcb <> geo_entry false "Rcb" /\ ffi_rib <> geo_entry false "Rib" /\ ffi_hilbert <> hilbert_entry false.
+Proof.
+  repeat split; intros H; apply (f_equal (fun e => List.length (ce_pre e))) in H; vm_compute in H; discriminate.
+Qed.
 Lemma ffi_fm_eq :
   ffi_fm = mk_centry true [(PAdjInt64, CBadType)] false DimNone COk None by_tag "FiducciaMattheyses" 4
              [(0, PZeroNone); (1, PZeroNone); (2, PNonPosNone); (3, PSame)].
@@ -371,13 +380,13 @@ Qed.
 
 Lemma agrees_rcb rust p0 dim pts ws iter tol s rest :
   take_slice (dlen pts) p0 = Some (s, rest) ->
-  coupe_rcb rust p0 dim pts ws iter tol = geo_expected (checks_points ffi_rcb) rust p0 dim pts ws iter tol s rest.
-Proof. intros Hs. unfold coupe_rcb. rewrite ffi_rcb_eq at 1. apply geo_dispatch_agrees. exact Hs. Qed.
+  coupe_rcb rust p0 dim pts ws iter tol = geo_expected true rust p0 dim pts ws iter tol s rest.
+Proof. intros Hs. unfold coupe_rcb. rewrite ffi_rcb_eq. apply geo_dispatch_agrees. exact Hs. Qed.
 
 Lemma agrees_rib rust p0 dim pts ws iter tol s rest :
   take_slice (dlen pts) p0 = Some (s, rest) ->
-  coupe_rib rust p0 dim pts ws iter tol = geo_expected (checks_points ffi_rib) rust p0 dim pts ws iter tol s rest.
-Proof. intros Hs. unfold coupe_rib. rewrite ffi_rib_eq at 1. apply geo_dispatch_agrees. exact Hs. Qed.
+  coupe_rib rust p0 dim pts ws iter tol = geo_expected true rust p0 dim pts ws iter tol s rest.
+Proof. intros Hs. unfold coupe_rib. rewrite ffi_rib_eq. apply geo_dispatch_agrees. exact Hs. Qed.
 
 (* hilbert: length check, then the weights must be tagged double, then 2-D points / f64 weights *)
 Definition hilbert_expected (chk : bool)
@@ -416,8 +425,8 @@ Qed.
 Lemma agrees_hilbert rust p0 pts ws part_count order s rest :
   take_slice (dlen pts) p0 = Some (s, rest) ->
   coupe_hilbert rust p0 pts ws part_count order
-  = hilbert_expected (checks_points ffi_hilbert) rust p0 pts ws part_count order s rest.
-Proof. intros Hs. unfold coupe_hilbert. rewrite ffi_hilbert_eq at 1. apply hilbert_agrees. exact Hs. Qed.
+  = hilbert_expected true rust p0 pts ws part_count order s rest.
+Proof. intros Hs. unfold coupe_hilbert. rewrite ffi_hilbert_eq. apply hilbert_agrees. exact Hs. Qed.
 
 Definition fm_expected (rust : adjacency -> numty -> list value -> list (option N) -> list N -> res (list N))
            (p0 : list N) (adj : adjacency) (ws : data) (a b c d : N) (s rest : list N) : outcome :=
